@@ -557,3 +557,157 @@ def from_placeholders(m):
     if 'prim' in m and m.get('args'):
         return dict(m, args=[from_placeholders(x) for x in m['args']])
     return m
+
+
+# ------------------------------------------------------------------------------------------------ clock stream (C11)
+RFC_LO, RFC_HI = -62135596800, 253402300799
+# year boundaries asked for by the property (first / last supported year, first leap year, first century, first
+# 400-year leap century, the old glibc `%Y` padding limit, the Gregorian reform, epoch, 2^31, the next non-leap
+# century) plus ordinary leap / non-leap years and neighbours of centuries
+CLOCK_YEARS = [1, 4, 100, 400, 1000, 1582, 1600, 1900, 1970, 2000, 2038, 2100, 9999,
+               2, 99, 101, 399, 401, 999, 1599, 1601, 1899, 1901, 1969, 1972, 1999, 2001, 2020, 2021, 2099, 2101, 2400, 9996, 9998]
+
+
+def days_of(y, m, d):
+    """days since 1970-01-01 of a date in years 1..9999 (the harness's own statement: `datetime.date` ordinals)"""
+    import datetime
+    return datetime.date(y, m, d).toordinal() - 719163
+
+
+def is_leap(y):
+    return (y % 4 == 0 and y % 100 != 0) or y % 400 == 0
+
+
+def month_len(y, m):
+    return 29 if (m == 2 and is_leap(y)) else [31, 28, 31, 30, 31, 30, 31, 31, 30, 31, 30, 31][m - 1]
+
+
+def civil_of_days(z):
+    """(y, m, d) of a day number in ANY year, independent of the model's algorithm: the Gregorian calendar repeats every
+    400 years = 146097 days, so the day is shifted into 1601..2000 and looked up with `datetime.date`"""
+    import datetime
+    k, r = divmod(z - days_of(1601, 1, 1), 146097)
+    d = datetime.date.fromordinal(r + days_of(1601, 1, 1) + 719163)
+    return d.year + 400 * k, d.month, d.day
+
+
+def days_of_any(y, m, d):
+    k, yy = divmod(y - 1601, 400)
+    return days_of(yy + 1601, m, d) + 146097 * k
+
+
+def canon_ts(t):
+    """the canonical text of an instant in the supported range, stated without pytezos"""
+    days, secs = divmod(t, 86400)
+    y, m, d = civil_of_days(days)
+    return '%04d-%02d-%02dT%02d:%02d:%02dZ' % (y, m, d, secs // 3600, secs % 3600 // 60, secs % 60)
+
+
+def clock_instants(rng, n_random, n_midnights):
+    """[(label, t)] in the ORDER in which the real functions are to be called (one process: a defect that depends on
+    the call history — a per-day cache, say — shows on the second instant of a pair)"""
+    out = []
+
+    def add(label, t):
+        out.append((label, t))
+
+    for y in CLOCK_YEARS:
+        for m in range(1, 13):
+            first = days_of(y, m, 1) * 86400
+            nxt = first + month_len(y, m) * 86400
+            for dt in (-1, 0, 1):                                    # …T23:59:59 of the previous day, midnight, …T00:00:01
+                if RFC_LO <= first + dt <= RFC_HI:
+                    add(f'month-start:{y:04d}', first + dt)
+            for dt in (-86400, -86399, -2, -1):                      # last day of the month 00:00:00 / 00:00:01, 23:59:58 / 23:59:59
+                if RFC_LO <= nxt + dt <= RFC_HI:
+                    add(f'month-end:{y:04d}', nxt + dt)
+        feb28 = days_of(y, 2, 28) * 86400
+        for dt in (-1, 0, 43200, 86399, 86400, 86401, 2 * 86400 - 1, 2 * 86400):   # Feb 28, Feb 29 | Mar 1, Mar 1 | Mar 2
+            add(f'feb:{"leap" if is_leap(y) else "common"}:{y:04d}', feb28 + dt)
+        for dt in (0, 1, 86399):
+            add(f'year-start:{y:04d}', days_of(y, 1, 1) * 86400 + dt)
+            add(f'year-end:{y:04d}', days_of(y, 12, 31) * 86400 + 86399 - dt)
+    for d in range(4, 16):                                           # the proleptic calendar has no gap in October 1582
+        add('gregorian-reform', days_of(1582, 10, d) * 86400)
+    for t in (0, -1, 1, -2, 2, -86400, -86401, -86399, 86399, 86400, 86401, -43200, 43200, 59, 60, 61, 3599, 3600, 3601,
+              -59, -60, -61, -3599, -3600, -3601, 2 ** 31 - 1, 2 ** 31, 2 ** 31 + 1, -2 ** 31, -2 ** 31 - 1, 2 ** 32 - 1, 2 ** 32,
+              RFC_LO, RFC_LO + 1, RFC_LO + 86399, RFC_LO + 86400, RFC_HI, RFC_HI - 1, RFC_HI - 86399, RFC_HI - 86400):
+        add('epoch-and-powers', t)
+    # midnights anywhere in the range, the second before and after, in both call orders
+    for i in range(n_midnights):
+        k = rng.randrange(RFC_LO // 86400 + 1, RFC_HI // 86400) if i % 3 else rng.randrange(RFC_LO // 86400 + 1, 0)
+        order = [(0, -1, 1), (-1, 0, 1), (1, -1, 0)][i % 3]
+        for dt in order:
+            add('midnight:' + ('before-1970' if k < 0 else 'after-1970'), k * 86400 + dt)
+    for i in range(n_random):
+        if i % 4 == 0:
+            add('random:negative', rng.randrange(RFC_LO, 0))
+        elif i % 4 == 1:
+            add('random:1970-2106', rng.randrange(0, 2 ** 32))
+        else:
+            add('random:range', rng.randrange(RFC_LO, RFC_HI + 1))
+    for t in (RFC_LO - 1, RFC_LO - 2, RFC_LO - 86400, RFC_LO - 366 * 86400, RFC_LO - 366 * 86400 - 1, RFC_HI + 1, RFC_HI + 2,
+              RFC_HI + 86400, 10 ** 12, -10 ** 12, 10 ** 15, -10 ** 15, 2 ** 63 - 1, 2 ** 63, -2 ** 63, 2 ** 64, 10 ** 30, -10 ** 30):
+        add('outside:' + ('before-year-1' if t < 0 else 'after-year-9999'), t)
+    for _ in range(max(20, n_random // 100)):
+        t = rng.choice([RFC_LO - 1 - rng.randrange(10 ** 10), RFC_HI + 1 + rng.randrange(10 ** 10)])
+        add('outside:' + ('before-year-1' if t < 0 else 'after-year-9999'), t)
+    return out
+
+
+# Python adds the fraction as a binary float (`timestamp += float("0" + fraction)`): fractions within 2^-15 of a whole
+# second can land on the neighbouring integer.  The model reproduces binary64 rounding, so every kind is generated.
+def any_fraction(rng):
+    k = rng.randrange(10)
+    if k == 0:
+        return '0' * rng.randrange(1, 12)
+    if k == 1:                                                       # just above a whole second
+        return '0' * rng.randrange(3, 25) + rng.choice('123456789') + ''.join(rng.choice('0123456789') for _ in range(rng.randrange(0, 4)))
+    if k == 2:                                                       # just below the next second
+        return '9' * rng.randrange(3, 25) + ''.join(rng.choice('0123456789') for _ in range(rng.randrange(0, 4)))
+    if k == 3:                                                       # around one half (ties of `int`, not of the rounding)
+        return rng.choice(['5', '50', '4' + '9' * rng.randrange(1, 20), '5' + '0' * rng.randrange(1, 20) + '1'])
+    if k == 4:                                                       # very long: underflow of the tail, 400 digits
+        return ''.join(rng.choice('0123456789') for _ in range(rng.choice([40, 100, 400])))
+    if k == 5:
+        return '0' * rng.choice([320, 330, 400]) + '1'               # subnormal / underflow to 0.0
+    n = rng.choice([1, 2, 3, 4, 6, 9, 12, 17])
+    return ''.join(rng.choice('0123456789') for _ in range(n))
+
+
+def clock_spellings(rng, t, rich):
+    """[(label, string)] around the canonical text of instant t: what pytezos accepts on input and near misses"""
+    s = canon_ts(t)
+    days, _ = divmod(t, 86400)
+    y, m, d = civil_of_days(days)
+    out = [('canonical', s)]
+    if not rich:
+        return out
+    body = s[:-1]
+    out += [('lowercase-t', s.replace('T', 't')), ('lowercase-z', body + 'z'), ('space-for-T', s.replace('T', ' ')),
+            ('no-zone', body), ('trailing-newline', s + '\n'), ('trailing-space', s + ' '), ('leading-space', ' ' + s),
+            ('two-newlines', s + '\n\n'), ('leading-newline', '\n' + s), ('trailing-Z', s + 'Z'),
+            ('year-5-digits', '0' + s), ('year-3-digits', s[1:]), ('year-0000', '0000' + s[4:]), ('signed-year', '+' + s[1:]),
+            ('fraction-dot-only', body + '.Z'), ('fraction-comma', body + ',5Z')]
+    fr = any_fraction(rng)
+    out += [('fraction', body + '.' + fr + 'Z'), ('fraction-newline', body + '.' + fr + 'Z\n')]
+    sg, oh, om = rng.choice('+-'), rng.randrange(0, 24), rng.randrange(0, 60)
+    out += [('offset', body + '%s%02d:%02d' % (sg, oh, om)), ('offset-fraction', body + '.' + any_fraction(rng) + '%s%02d:%02d' % (sg, oh, om)),
+            ('offset-zero', body + rng.choice(['+00:00', '-00:00'])), ('offset-23:59', body + rng.choice('+-') + '23:59'),
+            ('offset-24:00', body + '+24:00'), ('offset-00:60', body + '-00:60'), ('offset-no-colon', body + '+0100'),
+            ('offset-short', body + '+01'), ('offset-newline', body + '-05:30\n'), ('offset-then-Z', body + '+01:00Z')]
+
+    def put(pos, width, val):
+        return s[:pos] + ('%0*d' % (width, val)) + s[pos + width:]
+    out += [('day-after-month-end', put(8, 2, month_len(y, m) + 1)), ('day-00', put(8, 2, 0)), ('day-31', put(8, 2, 31)),
+            ('day-30', put(8, 2, 30)), ('month-00', put(5, 2, 0)), ('month-13', put(5, 2, 13)), ('hour-24', put(11, 2, 24)),
+            ('minute-60', put(14, 2, 60)), ('second-60', put(17, 2, 60)), ('feb-29', put(8, 2, 29)[:5] + '02' + put(8, 2, 29)[7:]),
+            ('feb-30', put(8, 2, 30)[:5] + '02' + put(8, 2, 30)[7:]), ('feb-28', put(8, 2, 28)[:5] + '02' + put(8, 2, 28)[7:])]
+    for _ in range(4):
+        i = rng.randrange(len(s))
+        c = rng.choice('0123456789-:TZtz+. 9')
+        out.append(('mutant-char', s[:i] + c + s[i + 1:]))
+    i = rng.randrange(len(s))
+    out.append(('mutant-drop', s[:i] + s[i + 1:]))
+    out.append(('mutant-insert', s[:i] + rng.choice('0123456789-:TZ.') + s[i:]))
+    return out
